@@ -11,7 +11,7 @@ REPO = os.environ.get("BBVERIF_REPO", "/repo")
 EVID = os.path.join(ROOT, "evidence")
 REPLAYS = os.path.join(ROOT, "replays")
 KNOWN = os.path.join(ROOT, "known_findings.json")
-PY = os.path.join(ROOT, ".venv", "bin", "python")
+PY = sys.executable      # the checks already run under the overlay venv (also inside `vp run` snapshots, which have no .venv of their own)
 NCPU = int(os.environ.get("BBVERIF_JOBS", os.cpu_count() or 4))
 
 
